@@ -256,3 +256,79 @@ Print Assumptions C07_src_pin_backup_needs_backup.
 Print Assumptions C07_src_pin_operations_new.
 Print Assumptions C07_src_pin_operations_copy_file.
 Print Assumptions C07_src_pin_operations_tree_walker.
+
+(* ---- further functions on this property's path, pinned token for token as validated (dependency review after rounds 5 and 6:
+   each missed change had edited a pinned function that this property did not cite) ---- *)
+From XcpPins Require Import Pin_backup_is_num_backup Pin_common_allocate_file Pin_common_copy_owner Pin_common_copy_permissions Pin_common_copy_timestamps Pin_common_copy_xattr Pin_common_is_same_file Pin_common_sync Pin_feedback_send Pin_linux_copy_file_bytes Pin_linux_copy_file_offset Pin_linux_copy_node Pin_linux_lseek Pin_linux_reflink Pin_linux_try_copy_file_range Pin_main_expand_globs Pin_main_expand_sources Pin_main_opts_check Pin_mod_load_driver Pin_operations_drop Pin_operations_finalise_copy Pin_parblock_new Pin_parfile_new Pin_paths_ignore_filter.
+Theorem C07_src_pin_backup_is_num_backup : pin_unchanged name_backup_is_num_backup.
+Proof. exact pin_backup_is_num_backup. Qed.
+Theorem C07_src_pin_common_allocate_file : pin_unchanged name_common_allocate_file.
+Proof. exact pin_common_allocate_file. Qed.
+Theorem C07_src_pin_common_copy_owner : pin_unchanged name_common_copy_owner.
+Proof. exact pin_common_copy_owner. Qed.
+Theorem C07_src_pin_common_copy_permissions : pin_unchanged name_common_copy_permissions.
+Proof. exact pin_common_copy_permissions. Qed.
+Theorem C07_src_pin_common_copy_timestamps : pin_unchanged name_common_copy_timestamps.
+Proof. exact pin_common_copy_timestamps. Qed.
+Theorem C07_src_pin_common_copy_xattr : pin_unchanged name_common_copy_xattr.
+Proof. exact pin_common_copy_xattr. Qed.
+Theorem C07_src_pin_common_is_same_file : pin_unchanged name_common_is_same_file.
+Proof. exact pin_common_is_same_file. Qed.
+Theorem C07_src_pin_common_sync : pin_unchanged name_common_sync.
+Proof. exact pin_common_sync. Qed.
+Theorem C07_src_pin_feedback_send : pin_unchanged name_feedback_send.
+Proof. exact pin_feedback_send. Qed.
+Theorem C07_src_pin_linux_copy_file_bytes : pin_unchanged name_linux_copy_file_bytes.
+Proof. exact pin_linux_copy_file_bytes. Qed.
+Theorem C07_src_pin_linux_copy_file_offset : pin_unchanged name_linux_copy_file_offset.
+Proof. exact pin_linux_copy_file_offset. Qed.
+Theorem C07_src_pin_linux_copy_node : pin_unchanged name_linux_copy_node.
+Proof. exact pin_linux_copy_node. Qed.
+Theorem C07_src_pin_linux_lseek : pin_unchanged name_linux_lseek.
+Proof. exact pin_linux_lseek. Qed.
+Theorem C07_src_pin_linux_reflink : pin_unchanged name_linux_reflink.
+Proof. exact pin_linux_reflink. Qed.
+Theorem C07_src_pin_linux_try_copy_file_range : pin_unchanged name_linux_try_copy_file_range.
+Proof. exact pin_linux_try_copy_file_range. Qed.
+Theorem C07_src_pin_main_expand_globs : pin_unchanged name_main_expand_globs.
+Proof. exact pin_main_expand_globs. Qed.
+Theorem C07_src_pin_main_expand_sources : pin_unchanged name_main_expand_sources.
+Proof. exact pin_main_expand_sources. Qed.
+Theorem C07_src_pin_main_opts_check : pin_unchanged name_main_opts_check.
+Proof. exact pin_main_opts_check. Qed.
+Theorem C07_src_pin_mod_load_driver : pin_unchanged name_mod_load_driver.
+Proof. exact pin_mod_load_driver. Qed.
+Theorem C07_src_pin_operations_drop : pin_unchanged name_operations_drop.
+Proof. exact pin_operations_drop. Qed.
+Theorem C07_src_pin_operations_finalise_copy : pin_unchanged name_operations_finalise_copy.
+Proof. exact pin_operations_finalise_copy. Qed.
+Theorem C07_src_pin_parblock_new : pin_unchanged name_parblock_new.
+Proof. exact pin_parblock_new. Qed.
+Theorem C07_src_pin_parfile_new : pin_unchanged name_parfile_new.
+Proof. exact pin_parfile_new. Qed.
+Theorem C07_src_pin_paths_ignore_filter : pin_unchanged name_paths_ignore_filter.
+Proof. exact pin_paths_ignore_filter. Qed.
+Print Assumptions C07_src_pin_backup_is_num_backup.
+Print Assumptions C07_src_pin_common_allocate_file.
+Print Assumptions C07_src_pin_common_copy_owner.
+Print Assumptions C07_src_pin_common_copy_permissions.
+Print Assumptions C07_src_pin_common_copy_timestamps.
+Print Assumptions C07_src_pin_common_copy_xattr.
+Print Assumptions C07_src_pin_common_is_same_file.
+Print Assumptions C07_src_pin_common_sync.
+Print Assumptions C07_src_pin_feedback_send.
+Print Assumptions C07_src_pin_linux_copy_file_bytes.
+Print Assumptions C07_src_pin_linux_copy_file_offset.
+Print Assumptions C07_src_pin_linux_copy_node.
+Print Assumptions C07_src_pin_linux_lseek.
+Print Assumptions C07_src_pin_linux_reflink.
+Print Assumptions C07_src_pin_linux_try_copy_file_range.
+Print Assumptions C07_src_pin_main_expand_globs.
+Print Assumptions C07_src_pin_main_expand_sources.
+Print Assumptions C07_src_pin_main_opts_check.
+Print Assumptions C07_src_pin_mod_load_driver.
+Print Assumptions C07_src_pin_operations_drop.
+Print Assumptions C07_src_pin_operations_finalise_copy.
+Print Assumptions C07_src_pin_parblock_new.
+Print Assumptions C07_src_pin_parfile_new.
+Print Assumptions C07_src_pin_paths_ignore_filter.
